@@ -275,52 +275,104 @@ Definition undefine (ms : list macro) (n : string) : list macro :=
      | (k, v) :: r => if String.eqb k n then r else (k, v) :: go r
      end) ms.
 
-(** ** #if expressions: [evaluate] / [eval_eq] / [eval_unary] / [eval_term] *)
+(** ** #if expressions: [evaluate] / [eval_eq] / [eval_unary] / [eval_term]
+    Terms are C integer constants (hexadecimal 0x.., octal 0.., decimal) that fit an i64;
+    [!] is logical negation (0 or 1); [==] compares values; the condition holds when the result
+    is not 0. *)
 Inductive eval_res := EvOk (b : bool) (rest : string) | EvErr (msg : string).
+Inductive ieval_res := IvOk (v : N) (rest : string) | IvErr (msg : string).
 
-Definition eval_term (e : string) : eval_res :=
+Definition digit_val (a : ascii) : option N :=
+  let n := N_of_ascii a in
+  if (48 <=? n)%N && (n <=? 57)%N then Some (n - 48)%N
+  else if (97 <=? n)%N && (n <=? 102)%N then Some (n - 87)%N
+  else if (65 <=? n)%N && (n <=? 70)%N then Some (n - 55)%N
+  else None.
+
+Fixpoint parse_radix_aux (radix : N) (s : string) (acc : N) : option N :=
+  match s with
+  | EmptyString => Some acc
+  | String a r =>
+      match digit_val a with
+      | Some d => if (d <? radix)%N then parse_radix_aux radix r (acc * radix + d)%N else None
+      | None => None
+      end
+  end.
+
+(** [i64::from_str_radix] / [str::parse::<i64>] on a word (no sign can occur in a word) *)
+Definition parse_radix (radix : N) (s : string) : option N :=
+  match s with
+  | EmptyString => None
+  | _ => match parse_radix_aux radix s 0 with
+         | Some n => if (n <? 9223372036854775808)%N then Some n else None
+         | None => None
+         end
+  end.
+
+Definition parse_c_int (term : string) : option N :=
+  if starts_with "0x" term || starts_with "0X" term then parse_radix 16 (string_drop 2 term)
+  else if (1 <? String.length term)%nat && starts_with "0" term then parse_radix 8 (string_drop 1 term)
+  else parse_radix 10 term.
+
+Definition eval_term (e : string) : ieval_res :=
   let e := trim_start e in
   let '(term, rest) := take_word e in
   match term with
-  | EmptyString => EvErr "Expected term, found nothing"
-  | String a _ => if is_digit a then EvOk (String.eqb term "1") rest else EvErr "Undefined identifier"
+  | EmptyString => IvErr "Expected term, found nothing"
+  | String a _ =>
+      if is_digit a then
+        match parse_c_int term with
+        | Some v => IvOk v rest
+        | None => IvErr "Invalid number"
+        end
+      else IvErr "Undefined identifier"
   end.
 
-Fixpoint eval_unary (fuel : nat) (e : string) (neg : bool) : eval_res :=
+Definition b2n (b : bool) : N := if b then 1%N else 0%N.
+
+(** [nots]: None = no [!] seen; Some odd = an odd number of them *)
+Fixpoint eval_unary (fuel : nat) (e : string) (nots : option bool) : ieval_res :=
   match fuel with
-  | O => EvErr "fuel"
+  | O => IvErr "fuel"
   | S f =>
       let e := trim_start e in
       match e with
-      | String "!"%char r => eval_unary f r (negb neg)
+      | String "!"%char r =>
+          eval_unary f r (match nots with None => Some true | Some odd => Some (negb odd) end)
       | _ => match eval_term e with
-             | EvOk b rest => EvOk (xorb neg b) rest
+             | IvOk v rest =>
+                 IvOk (match nots with
+                       | None => v
+                       | Some true => b2n (N.eqb v 0)
+                       | Some false => b2n (negb (N.eqb v 0))
+                       end) rest
              | err => err
              end
       end
   end.
 
-Fixpoint eval_eq_loop (fuel : nat) (result : bool) (e : string) : eval_res :=
+Fixpoint eval_eq_loop (fuel : nat) (result : N) (e : string) : ieval_res :=
   match fuel with
-  | O => EvErr "fuel"
+  | O => IvErr "fuel"
   | S f =>
       let e := trim_start e in
       if starts_with "==" e then
-        match eval_unary (S (String.length e)) (string_drop 2 e) false with
-        | EvOk b rest => eval_eq_loop f (xorb result (negb b)) rest
+        match eval_unary (S (String.length e)) (string_drop 2 e) None with
+        | IvOk v rest => eval_eq_loop f (b2n (N.eqb result v)) rest
         | err => err
         end
-      else EvOk result e
+      else IvOk result e
   end.
 
 Definition evaluate (e : string) : eval_res :=
-  match eval_unary (S (String.length e)) e false with
-  | EvOk b rest =>
-      match eval_eq_loop (S (String.length rest)) b rest with
-      | EvOk r rest' => if String.eqb (trim_start rest') "" then EvOk r "" else EvErr "Expected end-of-line"
-      | err => err
+  match eval_unary (S (String.length e)) e None with
+  | IvOk v rest =>
+      match eval_eq_loop (S (String.length rest)) v rest with
+      | IvOk r rest' =>
+          if String.eqb (trim_start rest') "" then EvOk (negb (N.eqb r 0)) "" else EvErr "Expected end-of-line"
+      | IvErr m => EvErr m
       end
-  | err => err
+  | IvErr m => EvErr m
   end.
 
 (** ** the per-line scanner *)
